@@ -19,8 +19,8 @@ SPEC = dict(
               '< 65539 bytes, cuts at PDU/header/receive-capacity boundaries +-1 and their pairs otherwise; tx: request batches <= 7 bytes, all ternary codes; e2e: every 1-cut, every 2-cut of one response, '
               'boundary pairs + stride for 2..3 responses; every 1-cut of 1..3 requests, strided 2-cuts; flt / txf / rxc / blk faults: every byte offset; blk 2-cuts strided',
         thorough='rx: every composition of all streams <= 14 bytes (2^13 per 14-byte stream), would-block variant <= 12 bytes, full ternary codes <= 9 bytes; all 1884 sequences of 1..3 PDUs over the 12 kinds: '
-                 'every 1-cut (streams without the 65539-byte PDU), every 2-cut (<= 40 bytes), boundary cuts +-1 and all their pairs otherwise, each with and without would-block; tx: batches <= 10 bytes, all ternary codes (3^9 x 2); '
-                 'e2e: every 2-cut of 1..2 responses and of 3 responses without would-block, every 2-cut of 1..2 requests (3 requests: pairs touching a boundary + every third); blk: every 2-cut of request and response'),
+                 'every 1-cut (streams without the 65539-byte PDU), every 2-cut (<= 40 bytes), boundary cuts +-1 and all their pairs otherwise, with and without would-block (pairs on 3-PDU streams without); tx: batches <= 10 bytes, all ternary codes (3^9 x 2); '
+                 'e2e: every 2-cut of 1..2 responses (3 responses: pairs touching a PDU boundary + every second other pair), every 2-cut of 1..2 requests (3 requests: pairs touching a boundary + every third); blk: every 2-cut of request and response'),
     technique='exhaustive, deviation-bounded enumeration of environment schedules at the socket seam against the real client code under ASan+UBSan; reference TLV splitter and byte-exact wire comparison as oracle',
     level_text='All schedules of the stated finite space are executed on the compiled client code (non-blocking transport object, asynchronous service, blocking client) with a simulated socket layer whose every '
                'answer is a choice of the driver; nothing is sampled. Oracles: (1) the bytes written on each connection must parse as whole serialized requests (taken from the handles before anything is sent) in '
